@@ -64,7 +64,7 @@ pub fn replay(ctx: &Ctx, _stage: &str, case: &Value) -> Report {
 pub const INFO: PropInfo = PropInfo {
     id: "C01",
     level: "exploration",
-    rule: "cases = collections built by construction from an ancestor genome (1..4 contigs of 1..12000 bases, optional low-complexity stretch, optional N / IUPAC runs of the ancestor itself that every sample inherits) and 1..5 related samples (divergence 0/0.1/1/3/10 %, SNP/indel edits, N runs 1..300, all IUPAC codes, targeted knock-out of a reference splitter with an ambiguity code placed next to it, whole-contig reverse complement, contig dropped / duplicated / novel / reordered, identical samples, a variant placed 1..40 bases next to an N run, and in 4 % of the cases a swarm of 60..2600 short unrelated contigs in one sample so that raw groups receive several packs in one batch), plus a branch with 49..126 samples; parameters k 9..32, segment size 50..1000/5000/60000, min match 15..32, threads 1..16, -l 1..60, fallback 0/0.05/0.5/1, queue capacity from just above the largest contig to 2 GiB, one file per sample or one PanSN file; presentation (line width, CRLF, case, gzip / multi-member gzip) randomised. Created with the real `ragc create`; oracle: Decompressor::list_samples/get_sample (and `ragc getset` for one sample in 1/8 of the cases) equals the input under the documented normalisation: same sample order, same headers, same bases. Non-trivial = >= 2 samples and at least one LZ-encoded delta in the archive (seen by the independent decoder); distinct = distinct collection.",
+    rule: "cases = collections built by construction from an ancestor genome (1..4 contigs of 1..12000 bases, optional low-complexity stretch, optional N / IUPAC runs of the ancestor itself that every sample inherits) and 1..5 related samples (divergence 0/0.1/1/3/10 %, SNP/indel edits, N runs 1..300, all IUPAC codes, targeted knock-out of a reference splitter with an ambiguity code placed next to it, whole-contig reverse complement, contig dropped / duplicated / novel / reordered, identical samples, a variant placed 1..40 bases next to an N run, and in 4 % of the cases a swarm of 60..2600 short unrelated contigs in one sample so that raw groups receive several packs in one batch), plus a branch with 49..126 samples; parameters k 9..32, segment size 50..1000/5000/60000, min match 15..32, threads 1..16, -l 1..60, fallback 0/0.05/0.5/1, queue capacity from just above the largest contig to 2 GiB, one file per sample or one PanSN file; presentation (line width, CRLF, case, gzip / multi-member gzip with member boundaries anywhere, at record starts or at line starts) randomised. Created with the real `ragc create`; oracle: Decompressor::list_samples/get_sample (and `ragc getset` for one sample in 1/8 of the cases) equals the input under the documented normalisation: same sample order, same headers, same bases. Non-trivial = >= 2 samples and at least one LZ-encoded delta in the archive (seen by the independent decoder); distinct = distinct collection.",
     assumptions: &["inputs respect the implicit preconditions of the callers: unique sample names, unique contig headers within a sample, headers without leading/trailing blanks, non-PanSN headers with fewer than two '#', PanSN samples contiguous, every contig admissible by the queue capacity"],
     needs_cli: true,
     needs_checked: false,
